@@ -166,38 +166,30 @@ Proof.
 Qed.
 
 
-(* what refactor.Template writes when the transformation reports "unchanged" *)
+(* what refactor.Template writes when the transformation reports "unchanged": every token as it was *)
 Lemma refactor_tokens_unchanged (printable : N -> bool) : forall toks,
-  let '(out, _, inside) := refactor_tokens lower printable (fun _ => None) toks in
-  inside = true -> out = flat_map wrap toks.
+  fst (fst (refactor_tokens lower printable (fun _ => None) toks)) = flat_map wrap toks.
 Proof.
-  induction toks as [|[ty tok] r IH]; [cbn; intros _; reflexivity|].
+  induction toks as [|[ty tok] r IH]; [reflexivity|].
   cbn [refactor_tokens flat_map].
-  destruct (refactor_tokens lower printable (fun _ => None) r) as [[out errs] inside].
-  destruct ty; unfold wrap at 1; cbn [fst snd].
-  - intros H. rewrite (IH H). reflexivity.
-  - unfold refactor_expression. destruct (lex tok) as [ts| |]; try (intros H; discriminate).
-    destruct (parse_tokens ts); try (intros H; discriminate); intros H; rewrite (IH H); reflexivity.
-  - unfold refactor_expression. destruct (lex tok) as [ts| |]; try (intros H; discriminate).
-    destruct (parse_tokens ts); try (intros H; discriminate); intros H; rewrite (IH H); reflexivity.
-  - intros H. rewrite (IH H). reflexivity.
+  destruct (refactor_tokens lower printable (fun _ => None) r) as [[out errs] inside]. cbn [fst] in IH. subst out.
+  destruct ty; unfold wrap at 1; cbn [fst snd]; try reflexivity;
+    unfold refactor_expression; destruct (lex tok) as [ts| |]; try reflexivity; destruct (parse_tokens ts); reflexivity.
 Qed.
 
 (* refactor.Template with a transformation that reports "unchanged": the template comes back verbatim, whatever it
-   contains — expressions with syntax errors included (they are counted as errors and rewritten as they were).
-   [inside = false] only when a text literal lies outside the code-point model (raw byte escapes). *)
+   contains — expressions with syntax errors included (they are counted as errors and rewritten as they were) *)
 Theorem refactor_unchanged_verbatim (printable : N -> bool) tops s : nulfree s ->
-  exists out errs inside,
-    refactor_template isln lower printable (fun _ => None) tops s = Ok (out, errs, inside)
-    /\ (inside = true -> out = s).
+  exists errs inside,
+    refactor_template isln lower printable (fun _ => None) tops s = Ok (s, errs, inside).
 Proof.
   intros Hn. unfold refactor_template. destruct s as [|c s'].
-  { exists [], O, true. auto. }
+  { exists O, true. reflexivity. }
   destruct (scan_all_ok isln lower tops false (c :: s')) as (toks & HT). rewrite HT; cbn [bind].
   pose proof (refactor_tokens_unchanged printable toks) as HU.
-  destruct (refactor_tokens lower printable (fun _ => None) toks) as [[out errs] inside].
-  exists out, errs, inside. split; [reflexivity|]. intros Hi. rewrite (HU Hi).
-  unfold scan_all in HT. apply (scan_all_lossless tops _ _ _ _ (R_new _ Hn) HT).
+  destruct (refactor_tokens lower printable (fun _ => None) toks) as [[out errs] inside]. cbn [fst] in HU.
+  exists errs, inside. rewrite HU. unfold scan_all in HT.
+  rewrite (scan_all_lossless tops _ _ _ _ (R_new _ Hn) HT). reflexivity.
 Qed.
 
 End Lossless.
